@@ -1,4 +1,4 @@
--------------------------------- MODULE Folds --------------------------------
+----------------------------- MODULE ScratchFolds -----------------------------
 (***************************************************************************)
 (* L2: the traversals of src/repr/bdd.rs that use the per-node scratch     *)
 (* slot as a memo, over DAGs with complement edges:                        *)
